@@ -10,7 +10,10 @@
      live cells, lists are disjoint).  [abs_init]/[wf_init] and [run_ops_refines] show that every state reached
      from the empty connection by any program has such an [R], so "forall st R, Abs st R -> WF R -> ..." is
      "for all sets of handlers".
-   * [script] = log so far -> callback id -> userdata id -> (actions, return value): all handler behaviours;
+   * [script] = log so far -> callback id -> userdata id -> (actions, return value): all handler behaviours
+     (add / delete handlers of every kind, send, take time [AClk]); [instant sc]: no callback takes time - only
+     the three "is served in this pass" theorems (fire_exact_all, timed_fires_next_iteration_when_due,
+     global_timed_always) assume it, because they speak of "due / matching when the pass starts";
      [others_only sc]: no handler names its own callback in a delete request ("delete other handlers").
    * Every statement holds for every [fuel]; [Fuel] (not enough fuel given to the pointer walks) is the only
      outcome the theorems leave open - see [fuel_gap] at the end. *)
@@ -49,7 +52,8 @@ Theorem fire_exact_order :
       subseq (calls_of (rev evs_id)) (id_snapshot sz R) /\
       subseq (calls_of (rev evs_st)) (hids (rget KStanza R)) /\
       NoDup (calls_of (rev evs_id)) /\ NoDup (calls_of (rev evs_st)) /\
-      (forall e, In e (evs_st ++ evs_id) -> exists x cb ud u k ret, e = EvCall x cb ud u k (g_clock R) ret).
+      (forall e, In e evs_st -> is_call_kind KStanza e) /\
+      (forall e, In e evs_id -> exists id, st_id sz = Some id /\ is_call_kind (KId id) e).
 Proof. exact fire_order_lemma. Qed.
 Print Assumptions fire_exact_order.
 
@@ -66,7 +70,7 @@ Print Assumptions fire_exact_only.
    matches is invoked for the stanza, unless a handler invoked earlier for this stanza deleted it *)
 Theorem fire_exact_all :
   forall sc sz R x r,
-    WF R -> find_rec x (rget KStanza R) = Some r -> s_gate KStanza R r = true ->
+    instant sc -> WF R -> find_rec x (rget KStanza R) = Some r -> s_gate KStanza R r = true ->
     s_match KStanza r sz (g_clock R) = true ->
     (exists ret, In (EvCall x (r_cb r) (r_ud r) (r_user r) KStanza (g_clock R) ret) (g_log (spec_fire_stanza sc sz R))) \/
     present (rget KStanza (spec_fire_stanza sc sz R)) x = false.
@@ -156,7 +160,10 @@ Theorem timed_exact :
 Proof. exact fire_timed_exact_lemma. Qed.
 Print Assumptions timed_exact.
 
-(* timed_never_early: whatever a timed pass invokes had, at its turn, a full period behind its stamp; with a
+(* Callbacks may take time (action AClk): the clock is read per item, [Rm] is the registry at the moment the
+   handler is reached and t = g_clock Rm the time of that moment; the call event carries t and the handler is
+   stamped with t ([timed_stamp_on_fire]), so "one period after it last fired" is about the time it really ran.
+   timed_never_early: whatever a timed pass invokes had, at its turn, a full period behind its stamp; with a
    clock that does not run backwards that is stamp + period <= now.  The stamp is the time of registration
    ([timed_stamp_on_add]), of the re-arm at stream start / handler_reset_timed ([timed_stamp_on_rearm]), or of its
    last firing ([spec_loop]: [rec_stamp] before the call).
@@ -166,12 +173,12 @@ Print Assumptions timed_exact.
 Theorem timed_never_early :
   forall sc R e,
     In e (g_log (spec_fire_timed sc R)) -> ~ In e (g_log R) ->
-    exists x k Rm r ret period last,
-      e = EvCall x (r_cb r) (r_ud r) (r_user r) k (g_clock R) ret /\
+    exists x k Rm r ret period last t,
+      e = EvCall x (r_cb r) (r_ud r) (r_user r) k t ret /\ t = g_clock Rm /\
       ((k = KTimed /\ g_conn R = true) \/ k = KGlobal) /\
       find_rec x (rget k Rm) = Some r /\ r_flt r = FTimed period last /\
-      period <= elapsed last (g_clock R) /\
-      (0 <= last <= g_clock R -> g_clock R < two64 -> timed_due period last (g_clock R)) /\
+      period <= elapsed last t /\
+      (0 <= last <= t -> t < two64 -> timed_due period last t) /\
       (k = KTimed -> r_user r = true -> g_neg R = true).
 Proof. exact timed_never_early_lemma. Qed.
 Print Assumptions timed_never_early.
@@ -190,6 +197,15 @@ Theorem timed_stamp_on_add :
 Proof. exact add_timed_stamp_lemma. Qed.
 Print Assumptions timed_stamp_on_add.
 
+(* ... and when it fires it is stamped with the time at which it was reached, not with the time the pass began *)
+Theorem timed_stamp_on_fire :
+  forall k x R r period last,
+    (k = KTimed \/ k = KGlobal) -> WF R ->
+    find_rec x (rget k R) = Some r -> r_flt r = FTimed period last ->
+    find_rec x (rget k (r_update k x (rec_stamp k (g_clock R)) R)) = Some (rec_flt r (FTimed period (g_clock R))).
+Proof. exact timed_stamp_on_fire_lemma. Qed.
+Print Assumptions timed_stamp_on_fire.
+
 Theorem timed_stamp_on_rearm :
   forall R r', In r' (rget KTimed (r_reset false R)) ->
     exists r, In r (rget KTimed R) /\ r' = rec_stamp KTimed (g_clock R) r.
@@ -200,7 +216,7 @@ Print Assumptions timed_stamp_on_rearm.
    that the gate lets through fires (unless a handler served earlier in the same pass deleted it) *)
 Theorem timed_fires_next_iteration_when_due :
   forall sc R x r,
-    WF R -> g_conn R = true -> find_rec x (rget KTimed R) = Some r ->
+    instant sc -> WF R -> g_conn R = true -> find_rec x (rget KTimed R) = Some r ->
     s_gate KTimed R r = true -> s_match KTimed r no_stanza (g_clock R) = true ->
     (exists ret, In (EvCall x (r_cb r) (r_ud r) (r_user r) KTimed (g_clock R) ret) (g_log (spec_fire_timed sc R))) \/
     present (rget KTimed (spec_fire_timed sc R)) x = false.
@@ -211,7 +227,7 @@ Print Assumptions timed_fires_next_iteration_when_due.
    negotiation flag are *)
 Theorem global_timed_always :
   forall sc R x r,
-    WF R -> find_rec x (rget KGlobal R) = Some r -> s_match KGlobal r no_stanza (g_clock R) = true ->
+    instant sc -> WF R -> find_rec x (rget KGlobal R) = Some r -> s_match KGlobal r no_stanza (g_clock R) = true ->
     (exists ret, In (EvCall x (r_cb r) (r_ud r) (r_user r) KGlobal (g_clock R) ret) (g_log (spec_fire_timed sc R))) \/
     present (rget KGlobal (spec_fire_timed sc R)) x = false.
 Proof. exact global_due_fires_lemma. Qed.
